@@ -221,7 +221,61 @@ func propC16(c *ctx) error {
 			}
 		}
 	}
+	if err := c16LateLoad(c, r); err != nil {
+		return err
+	}
 	return c16Twins(c, r)
+}
+
+// c16LateLoad: a template object obtained and executed BEFORE further files are added to its manager sees, on its next
+// execution, the templates loaded by then — exactly like a freshly obtained object ("depend only on the loaded templates").
+func c16LateLoad(c *ctx, r *rng) error {
+	res := c.res
+	mains := []string{
+		`<main><section :if="${use}" :insert="late">x</section><p :else>none</p></main>`,
+		`<main><t:block :range="_, k : ks" :replace="late">x</t:block></main>`,
+		`<main><i :insert="${use ? 'late' : 'early'}">x</i></main><b :define="early">E</b>`,
+	}
+	for mi, main := range mains {
+		for _, firstUse := range []bool{false, true} {
+			m := html.NewTplManager()
+			if err := m.Add("main.html", strings.NewReader(main)); err != nil {
+				res.SelfTest = append(res.SelfTest, "C16 late-load template does not load: "+err.Error())
+				continue
+			}
+			old, _ := m.GetTemplate("main.html")
+			exec := func(t types.Template, use bool) string {
+				var sb strings.Builder
+				ks := []int{}
+				if use {
+					ks = []int{1, 2}
+				}
+				err := t.Execute(&sb, map[string]any{"use": use, "ks": ks})
+				if err != nil {
+					return sb.String() + "|ERR"
+				}
+				return sb.String()
+			}
+			first := exec(old, firstUse) // succeeds without the fragment, fails (not found) with it
+			if err := m.Add("late.html", strings.NewReader(`<i :define="late">two</i>`)); err != nil {
+				res.SelfTest = append(res.SelfTest, "C16 late file does not load: "+err.Error())
+				continue
+			}
+			fresh, _ := m.GetTemplate("main.html")
+			for _, use := range []bool{true, false, true} {
+				a, b := exec(old, use), exec(fresh, use)
+				res.S3Checked++
+				res.count("late_load_executions")
+				if a != b || (use && strings.HasSuffix(b, "|ERR")) {
+					res.violate(J{"main": main, "first_execution_used_fragment": firstUse, "first_result": first, "use": use}, b, a,
+						"an object executed before another file was loaded renders differently from a freshly obtained one")
+				}
+			}
+			res.eval(fmt.Sprintf("late|%d|%v", mi, firstUse), true, J{"main": main})
+		}
+	}
+	_ = r
+	return nil
 }
 
 // c16Twins: histories over data of DIFFERENT Go types that look alike — distinct struct types with the same printed
